@@ -136,6 +136,8 @@ def api_call(job):
         out["gates"] = impl.gates_of(qc)
         out["nq"] = qc.num_qubits
         _check_recent(out)
+        # did the LIBRARY modify the argument? (snapshot taken before the harness itself starts scribbling over the result, which may be the argument object)
+        out["unchanged"] = 1 if (impl.gates_of(arg) if api == "compress" else _snapshot_stab(arg)) == before else 0
         hostile(qc)                  # the caller now edits the circuit it was given ...
         _RECENT.append((qc, impl.gates_of(qc), f"{api} n={n} conn={conn} codes={job.get('codes')} fmt={job.get('fmt')}"))     # ... and nobody else may touch it afterwards
         del _RECENT[:-40]
@@ -151,8 +153,9 @@ def api_call(job):
                 out["layer"] = val["blocks"]
             elif "blocks" in val:
                 out["layer"] = [[2, 2, 2, 2]] * n       # not block diagonal: an invalid layer for the spec
-    after = impl.gates_of(arg) if api == "compress" else _snapshot_stab(arg)
-    out["unchanged"] = 1 if after == before else 0
+    if out["exc"] is not None:
+        after = impl.gates_of(arg) if api == "compress" else _snapshot_stab(arg)
+        out["unchanged"] = 1 if after == before else 0
     if api == "readout" and job.get("alt") is not None and out["exc"] is None:
         try:
             st2 = stab_from_codes(n, job["alt"], "matrices")
